@@ -1,9 +1,17 @@
 From Coq Require Import ZArith List String Bool.
 From FV Require Import Base.Ser Base.Res C18.Model.
+From FV Require C18.ModelLayout.
 Import ListNotations.
 Open Scope string_scope.
+Global Instance De_langsys : De ModelLayout.langsys :=
+  fun l => match de l with Some ((r, f), rest) => Some (ModelLayout.mkLang r f, rest) | None => None end.
+Global Instance Ser_langsys : Ser ModelLayout.langsys := fun x => ser (ModelLayout.req x, ModelLayout.feats x).
+Global Instance De_script : De ModelLayout.script :=
+  fun l => match de l with Some ((d, r), rest) => Some (ModelLayout.mkScript d r, rest) | None => None end.
+Global Instance Ser_script : Ser ModelLayout.script := fun x => ser (ModelLayout.dflt x, ModelLayout.recs x).
 Definition reg : registry := [
   ("computeMegaGlyphOrder", run1 computeMegaGlyphOrder);
-  ("computeMegaCmap", run1 computeMegaCmap)
+  ("computeMegaCmap", run1 computeMegaCmap);
+  ("mergeScriptRecords", run1 ModelLayout.mergeScriptRecords)
 ].
 Definition fv_entry := dispatch reg.
